@@ -157,10 +157,19 @@ func (p *Peer) pushHeadsForAllDocs(ctx context.Context, col client.Collection, p
 	txn := datastore.MustGetFromClientTxn(clientTxn)
 	ctx = datastore.CtxSetTxn(ctx, txn)
 
-	docIDChan, err := col.GetAllDocIDs(ctx)
+	docIDCtx, cancelDocIDs := context.WithCancel(ctx)
+	docIDChan, err := col.GetAllDocIDs(docIDCtx)
 	if err != nil {
+		cancelDocIDs()
 		return err
 	}
+	defer func() {
+		// If we return before all docIDs have been received, the iterator that feeds the channel
+		// must be closed before the transaction is discarded.
+		cancelDocIDs()
+		for range docIDChan { //nolint:revive
+		}
+	}()
 	for docIDResult := range docIDChan {
 		if docIDResult.Err != nil {
 			return docIDResult.Err
